@@ -42,6 +42,22 @@ CLAIMED = {
                 text='2-D grid view, control point managers, flips, transpose, flip, extract/construct round trips and sweeps all address the same point for the same (u,v,w) on nets '
                      'with pairwise different sizes; round trips return the original shape and evaluate identically.',
                 note=_B_NOTE),
+    'C05': dict(category='other', technique='contracts on helpers.knot_refinement / operations.refine_knotvector; per-shape exhaustive symbolic execution (symx)',
+                text='Refinement leaves evaluate_single(u) equal to the spec point of the original definition (identity in symbolic knots, parameter, control points, weights); the new knot vector '
+                     'is the one written from the statement (every interior interval bisected d times, interior multiplicity = degree); unselected directions untouched; bad densities rejected.',
+                note=_B_NOTE),
+    'C06': dict(category='other', technique='contracts on helpers.knot_removal(+_kv) / operations.remove_knot; SMT-discharged VCs (pyvc) for the knot vector shift; per-shape exhaustive symbolic execution (symx)',
+                text='insert r times then remove t <= r times: sizes reduced by t, knot vector = original + (r-t) copies, control points and weights restored exactly when t == r, evaluation '
+                     'equal to the original; also after refinement; all directions of surfaces and volumes.',
+                note=_B_NOTE),
+    'C07': dict(category='other', technique='contracts on operations.split_*/decompose_*; per-shape exhaustive symbolic execution (symx)',
+                text='Every piece evaluated at the pulled-back parameter equals the spec point of the original for a symbolic split parameter (inside a span or on a knot) and symbolic u (v); '
+                     'input unchanged; split at a domain end rejected; decomposition gives one Bezier piece per non-empty interval (pair), in order.',
+                note=_B_NOTE),
+    'C08': dict(category='other', technique='contracts on helpers.degree_elevation / degree_reduction; symbolic execution (symx) with every coordinate symbolic',
+                text='For p = 1..8, t = 1..4: the Bernstein-to-monomial coefficient vectors of the elevated and the original polygon are identical polynomials in the control point symbols; '
+                     'reduction of an exact elevation returns the original for degree 2..8; non-Bezier input, num <= 0 and degree < 2 rejected. Exhaustive over the degree range stated.',
+                note=_B_NOTE),
 }
 
 _TODO = 'check not built yet in this revision (work in progress; see DESIGN.md section 7 for the planned contract)'
